@@ -21,7 +21,10 @@ from ..doubles import FakeConn, FakeListener, ScriptedSend, Stream, make_poller_
 SPEC = 'spec/io'
 TRANSIENT = ['EAGAIN', 'EWOULDBLOCK', 'EINTR', 'ENOBUFS']
 FATAL = ['EPIPE', 'ECONNRESET']
-ENDPOINTS = ['Server', 'Client', 'File', 'FileStr']     # FileStr: File written with str payloads (multi-byte UTF-8)
+# FileStr: File written with str payloads (multi-byte UTF-8); ServerAll: Server whose close request is the
+# server-wide close() (what `stopped` fires); FileRW: File opened for reading too ('w+b'), whose reads hit end-of-file
+ENDPOINTS = ['Server', 'Client', 'File', 'FileStr', 'ServerAll', 'FileRW']
+FILES = ('File', 'FileStr', 'FileRW')
 
 
 class Endpoint:
@@ -36,8 +39,9 @@ class Endpoint:
         self.root = Manager()
         self.poller = make_poller_double().register(self.root)
         self._signals = 0
+        self.ignore = []
         self._patched = None
-        getattr(self, '_setup_' + ('File' if kind == 'FileStr' else kind))()
+        getattr(self, '_setup_' + ('File' if kind in FILES else 'Server' if kind == 'ServerAll' else kind))()
 
     # -- observers ---------------------------------------------------------
     def _observer(self, names, channel):
@@ -47,6 +51,8 @@ class Endpoint:
         class Obs(BaseComponent):
             @handler(*names, channel=channel, priority=1000)
             def _on_sig(self, *a, **kw):
+                if a and any(a[0] is x for x in ep.ignore):
+                    return      # the listening socket's own disconnect (server-wide close) says nothing about the connection
                 ep.log.append({'k': 'signal', 'a': 0, 'b': 0, 'r': ''})
 
         Obs().register(self.root)
@@ -63,6 +69,7 @@ class Endpoint:
         from circuits.core.pollers import _read
         from circuits.net.sockets import TCPServer
         lst = FakeListener()
+        self.ignore.append(lst)
         self.comp = TCPServer(lst, channel='ep').register(self.root)
         self._observer(('error', 'disconnect'), 'ep')
         self.settle()
@@ -92,7 +99,7 @@ class Endpoint:
         from circuits.io.file import File
         os.makedirs(os.path.join(VERIF, '.work'), exist_ok=True)
         self.path = os.path.join(VERIF, '.work', 'c11-%d-%d.bin' % (os.getpid(), id(self)))
-        fobj = open(self.path, 'wb')
+        fobj = open(self.path, 'w+b' if self.kind == 'FileRW' else 'wb')
         ep = self
 
         def fd_write(fd, data):
@@ -102,6 +109,15 @@ class Endpoint:
         filemod.fd_write = fd_write
         self.comp = File(fobj, channel='ep').register(self.root)
         self._observer(('error', 'closed'), 'ep')
+        if self.kind == 'FileRW':
+            from circuits import BaseComponent, handler
+
+            class Eof(BaseComponent):
+                @handler('eof', channel='ep')
+                def _on_eof(self, *a):
+                    ep.log.append({'k': 'eof', 'a': 0, 'b': 0, 'r': ''})
+
+            Eof().register(self.root)
         self.settle()
         self.fobj = fobj
         self.fd = fobj
@@ -122,7 +138,7 @@ class Endpoint:
         else:
             data = self.stream.payload(n)
         self.log.append({'k': 'write', 'a': n, 'b': 0, 'r': ''})
-        if self.kind == 'Server':
+        if self.kind in ('Server', 'ServerAll'):
             self.root.fire(write(self.sock, data), 'ep')
         else:
             self.root.fire(write(data), 'ep')
@@ -144,6 +160,14 @@ class Endpoint:
         self._sync_close()
         self.script.next.clear()
 
+    def read_eof(self):
+        """one read-readiness event on a File opened for reading too: nothing was ever written to the real
+        file (fd_write is the double), so the read finds end-of-file"""
+        from circuits.core.pollers import _read
+        self.root.fire(_read(self.fd), 'ep')
+        self.settle()
+        self._sync_close()
+
     def closereq(self):
         from circuits.net.events import close
         self.log.append({'k': 'closereq', 'a': 0, 'b': 0, 'r': ''})
@@ -155,7 +179,7 @@ class Endpoint:
         self._sync_close()
 
     def _sync_close(self):
-        if self.kind in ('File', 'FileStr') and self.fobj.closed and not self.script.closed:
+        if self.kind in FILES and self.fobj.closed and not self.script.closed:
             self.script.closed = True
             self.log.append({'k': 'close', 'a': 0, 'b': 0, 'r': ''})
 
@@ -170,7 +194,7 @@ class Endpoint:
         if self._patched:
             self._patched[0].fd_write = self._patched[1]
         try:
-            if self.kind in ('File', 'FileStr'):
+            if self.kind in FILES:
                 if not self.fobj.closed:
                     self.fobj.close()
                 os.unlink(self.path)
@@ -214,6 +238,10 @@ def realise(hist, variant, scale, kind='Server', spare=0):
                 out.append(('R', ('fatal', 'ECONNRESET')))
         elif op == 'C':
             out.append(('C',))
+        elif op == 'E':
+            if kind != 'FileRW':
+                return None
+            out.append(('E',))
     return out
 
 
@@ -235,6 +263,9 @@ def run_script(kind, script, seed=1):
                 ep.ready(step[1], step[2] if len(step) > 2 else None)
             elif step[0] == 'C':
                 ep.closereq()
+            elif step[0] == 'E':
+                if ep.kind == 'FileRW':
+                    ep.read_eof()
         ep.quiesce()
         if ep.script.unscripted and any(s[0] == 'R' for s in script):
             pass
@@ -274,9 +305,11 @@ def random_script(rnd, maxlen, sizes):
                 script.append(('R', ('transient', rnd.choice(TRANSIENT))))
             else:
                 script.append(('R', ('fatal', rnd.choice(FATAL))))
-        elif not closed:
+        elif not closed and rnd.random() < 0.7:
             script.append(('C',))
             closed = True
+        else:
+            script.append(('E',))        # only a FileRW endpoint reacts to it
     return script
 
 
@@ -352,13 +385,16 @@ def run(tier, replay=None):
 
     # 1. exhaustive model check (the property on the design)
     mc = tlc.model_check(SPEC, 'WriteBuf', 'MC_WriteBuf.cfg' if quick else 'MC_WriteBuf_thorough.cfg', coverage=True)
-    for act in ('Write', 'Ready', 'CloseReq', 'Quiet'):
+    for act in ('Write', 'Ready', 'CloseReq', 'ReadEof', 'Quiet'):
         if act in mc.coverage and mc.coverage[act][1] == 0:
             raise tlc.MachineryError('vacuous model: action %s never taken' % act)
     # the defect generator: the drop variant must violate the property in the model
     gen = tlc.run_tlc(SPEC, 'WriteBuf', 'MC_WriteBuf_drop.cfg')
     if not gen.violated:
         raise tlc.MachineryError('the "drop" variant of WriteBuf.tla no longer violates C11: the model lost its teeth')
+    gen2 = tlc.run_tlc(SPEC, 'WriteBuf', 'MC_WriteBuf_eofdiscard.cfg')
+    if not gen2.violated:
+        raise tlc.MachineryError('the "eofdiscard" variant of WriteBuf.tla no longer violates C11: the model lost its teeth')
 
     # 2. every environment history of the model up to the bound (spec -> code)
     res, states = tlc.dump_states(SPEC, 'WriteBuf', 'HIST_WriteBuf.cfg' if quick else 'HIST_WriteBuf_thorough.cfg')
